@@ -46,6 +46,9 @@ func (c *DNSCache) VerifEntries() map[string]VerifDNSEntry {
 
 func (c *DNSCache) VerifSize() int { return c.size }
 
+// VerifDialer returns the dialer the cache connects with.
+func (c *DNSCache) VerifDialer() *net.Dialer { return &c.dialer }
+
 // VerifTransports reports the TLS server names for which the client's
 // destinationTripper currently holds a transport (nil if the client does not
 // use a destinationTripper).
@@ -63,6 +66,17 @@ func (fc *Client) VerifTransports() map[string]time.Time {
 		out[k], _ = t.lastUsed.Load().(time.Time)
 	}
 	return out
+}
+
+// VerifFederationDialer returns the dialer the client's destinationTripper
+// makes federation connections with (nil without a destinationTripper). Any
+// other dialer the client dials through serves the well-known fetch.
+func (fc *Client) VerifFederationDialer() *net.Dialer {
+	dt, ok := fc.client.Transport.(*destinationTripper)
+	if !ok {
+		return nil
+	}
+	return dt.dialer
 }
 
 // VerifCloseIdle closes idle connections of every cached transport (teardown
